@@ -3,11 +3,13 @@ import math
 import random
 import tracegen
 import framework as fw
+import translate
 
 ID = "C06"
 COQ_IMPORTS = ["From HTA.model Require Import C06_Model."]
 SOURCES = {"hta/analyzers/breakdown_analysis.py": ["get_idle_time_breakdown", "_analyze_idle_time_for_stream"],
            "hta/trace_analysis.py": ["get_idle_time_breakdown"], "hta/utils/utils.py": ["IdleTimeType"]}
+TRANSLATE = [translate.gen_idle_rules]
 INPUT_CONTRACT = True        # the loaded frame is re-checked against the file (framework.input_contract)
 N_CASES = {"quick": 300, "thorough": 5000}
 RULE = ("generated well-formed file sets whose kernels do not overlap within a stream (FIFO placement; tiny and wide time domains; kernels starting exactly "
@@ -191,7 +193,8 @@ LEVEL_TEXT = ("Proof: C06_gaps_are_consecutive + C06_start_order (the idle inter
               "non-overlap), C06_classification (three-way, exclusive, exhaustive, with the strictness of both comparisons), C06_launch_call (only a positively "
               "linked row counts as launch call), C06_telescope (categories add up to span minus busy time), C06_last_ends_last. Correspondence on every "
               "(rank, stream, category) cell of get_idle_time_breakdown and the ratios, thresholds on gap boundaries, stream subsets."
-              " C06_resolution_independent: times and threshold multiplied by k > 0 multiply every category's idle time by k.")
+              " C06_resolution_independent: times and threshold multiplied by k > 0 multiply every category's idle time by k."
+              " C06_rules_follow_source: the classification rule is regenerated from _analyze_idle_time_for_stream on every run.")
 LEVEL_NOTE = ("Hand model of get_idle_time_breakdown/_analyze_idle_time_for_stream (category filter, join on index_correlation, shift(1), the two masks). "
               "Float division/rounding of the ratios not modelled (tolerance).")
 TECHNIQUE = "Coq proof (telescoping sum over start-ordered kernels, case analysis of the classification) + differential correspondence via vm_compute"
